@@ -76,6 +76,17 @@ class Model:
 
     # ------------------------------------------------------------------------------------------
     def judge(self, op: dict) -> tuple[str, str]:
+        """A call that itself carries a variable is judged by the rules of the parametrized mode it brings about
+        (it is stored, its value checks are deferred to build) - not by those of the mode it leaves."""
+        if not self.param and self.uses_var(op) and op["op"] != "declare_variable":
+            self.param = True
+            try:
+                return self._judge(op)
+            finally:
+                self.param = False
+        return self._judge(op)
+
+    def _judge(self, op: dict) -> tuple[str, str]:
         k = op["op"]
         ch = op.get("ch")
         c = self.chans.get(ch) if ch is not None else None
